@@ -413,13 +413,26 @@ def cosim_one(args):
             return cb
         for i, ch in enumerate(chans):
             ch.queue.declare('dq%d' % i)
+        if sc.get('prelude') == 'failed-get':
+            # history before consuming: an unroutable mandatory publish is returned, the next call - a basic.get - raises
+            # the returned-message error; nothing of that get may be left behind when the channel starts consuming
+            chans[0].basic.publish(b'unroutable', 'no-such-queue', mandatory=True)
+            ctx.quiesce()
+            try:
+                chans[0].basic.get('dq0', no_ack=True)
+            except amqpstorm.AMQPMessageError:
+                out['prelude_raised'] = True
+        for i, ch in enumerate(chans):
             ch.basic.consume(cb_for(i), 'dq%d' % i, consumer_tag='ct%d' % i, no_ack=True)
 
         def consumer(i):
             def fn():
                 ch = chans[i]
                 try:
-                    if sc['mode'] == 'callback':
+                    if sc['mode'] == 'start':
+                        # the library's own loop; it ends when the broker has cancelled every consumer of the channel
+                        ch.start_consuming(auto_decode=auto)
+                    elif sc['mode'] == 'callback':
                         while not stop['flag']:
                             ch.process_data_events(auto_decode=auto)
                             amqpstorm.channel.time.sleep(0.005)
@@ -484,7 +497,7 @@ def cosim_one(args):
                 chans[0].basic.cancel('late')
         cons = [ctx.spawn(consumer(i), 'consumer%d' % i) for i in range(sc['nchan'])]
         ts = [ctx.spawn(feeder, 'feeder'), ctx.spawn(rpc_caller, 'rpc'), ctx.spawn(returner, 'returner')]
-        if sc.get('late') and sc['mode'] == 'callback':
+        if sc.get('late') and sc['mode'] in ('callback', 'start'):
             ts.append(ctx.spawn(late_consumer, 'late-consumer'))
         for t in ts:
             ctx.join(t)
@@ -495,7 +508,11 @@ def cosim_one(args):
                 break
             amqpstorm.channel.time.sleep(0.01)
         stop['flag'] = True
-        if sc['mode'] != 'callback':
+        if sc['mode'] == 'start':
+            for ch in chans:
+                for tag in sorted(broker.channels[ch.channel_id].get('consumers', {})):
+                    broker.cancel_consumer(ch.channel_id, tag)
+        elif sc['mode'] != 'callback':
             for i, ch in enumerate(chans):      # wake the generator loops
                 broker.queues['dq%d' % i].append((spec.Basic.Properties(message_id='last'), b'', '', 'dq%d' % i))
                 broker.pump('dq%d' % i)
@@ -534,7 +551,7 @@ def check(rep):
     thorough = rep.tier == 'thorough'
     rep.rule = ('SEQ-route: 1..7 items from {delivery (0..3+ body frames), returned message with content, RPC reply, other unsolicited method}; '
                 'SEQ-assembly: 1..4 deliveries with the reader\'s appends injected between calls and inside the body loop; COSIM: 1..2 channels '
-                'x {callback, generator} consumption x 4..14 deliveries of sizes {0, 1, one frame, several frames} x concurrent RPCs and returned '
+                'x {process_data_events loop, build_inbound_messages generator, start_consuming ended by broker cancels} consumption x 4..14 deliveries of sizes {0, 1, one frame, several frames} x concurrent RPCs and returned '
                 'mandatory publishes on the same channel x random schedules; distinct = distinct streams/event logs/scenarios; non-trivial = '
                 'a returned message or RPC reply is interleaved with deliveries, or a body spans several frames')
     rep.assumptions = [
@@ -554,14 +571,15 @@ def check(rep):
         seq_loop(rep, rng, lines, expect)
     jobs = []
     for _ in range(60 if not thorough else 1500):
-        jobs.append(({'nchan': rng.randint(1, 2), 'mode': rng.choice(['callback', 'generator']), 'messages': rng.randint(4, 14),
+        jobs.append(({'nchan': rng.randint(1, 2), 'mode': rng.choice(['callback', 'generator', 'start']), 'messages': rng.randint(4, 14),
                       'sizes': [rng.choice([0, 1, 100, 4088, 4089, 9000]) for _ in range(3)], 'split': rng.choice([None, 50, 1000]),
                       'rpcs': rng.randint(0, 4), 'returns': rng.randint(0, 3), 'late': rng.random() < 0.3,
-                      'auto_decode': rng.random() < 0.5, 'late_cancel': rng.choice([False, True, 'own'])}, rng.randrange(1 << 30)))
+                      'auto_decode': rng.random() < 0.5, 'late_cancel': rng.choice([False, True, 'own']),
+                      'prelude': rng.choice([None, None, 'failed-get'])}, rng.randrange(1 << 30)))
     # a consumer added while the channel is being consumed (queue with a backlog), fair time, heavy pre-emption is in C14;
     # here: a few such runs judged by C03's own oracle (every delivery exactly once, in order)
     for _ in range(40 if not thorough else 600):
-        jobs.append(({'nchan': 1, 'mode': 'callback', 'messages': rng.randint(2, 6), 'sizes': [rng.choice([0, 1, 100]) for _ in range(3)],
+        jobs.append(({'nchan': 1, 'mode': rng.choice(['callback', 'start']), 'messages': rng.randint(2, 6), 'sizes': [rng.choice([0, 1, 100]) for _ in range(3)],
                       'split': None, 'rpcs': 0, 'returns': 0, 'late': True, 'late_cancel': rng.choice([False, True, 'own', 'own']),
                       'auto_decode': rng.random() < 0.5}, rng.randrange(1 << 30) | 1))
     for (sc, seed), r in zip(jobs, par.pmap(cosim_one, jobs)):
